@@ -107,6 +107,26 @@ def main():
         return mod.replay(a.replay)
     run = Run(a.pid, a.tier, seed, level=cfg.get('level', 'proof'))
     audit = dict(ok=False, theorems={}, problems=[], required=cfg['required'], pfile=' '.join(cfg['pfile']) if isinstance(cfg['pfile'], list) else cfg['pfile'], trusted_base=cfg['trusted'])
+    # backstop: a call into the implementation that never returns must end in a verdict, not in a hung check
+    import threading
+    deadline = int(os.environ.get('VERIF_DEADLINE', '5400' if a.tier == 'quick' else '43200'))
+
+    def on_deadline():
+        try:
+            run.violation('the check did not complete within %d s: some call into the implementation does not return (or the machine is far too slow); '
+                          'no verdict on the property could be reached' % deadline, dict(broken='harness run did not terminate', kind='correspondence', deadline=deadline), False)
+            run.finish(audit)
+        finally:
+            import multiprocessing
+            for p in multiprocessing.active_children():
+                try:
+                    p.kill()
+                except Exception:     # noqa
+                    pass
+            os._exit(1)
+    timer = threading.Timer(deadline, on_deadline)
+    timer.daemon = True
+    timer.start()
     try:
         ok, log = (True, '') if a.no_build else build()
         audit['build_ok'] = ok
@@ -141,6 +161,7 @@ def main():
     except Exception:
         tb = traceback.format_exc()
         run.violation('check crashed (fail closed): ' + tb[-1500:], dict(broken='harness exception', traceback=tb), False)
+    timer.cancel()
     return run.finish(audit)
 
 
